@@ -79,8 +79,7 @@ func VerifC15() {
 	withSev := verifNondetBool("sev")
 	withTdx := verifNondetBool("tdx")
 	verifAssume(withSev || withTdx, "at least one technology is requested")
-	vmsas := uint32(verifNondetU8("launch_vmsas"))
-	verifAssume(vmsas <= 1, "launch VMSA option drawn from {all, 1}")
+	vmsas := verifNondetU32("launch_vmsas") // 0 = all supported counts; any other value is a legal request
 	svn := uint32(verifNondetU8("svn"))
 	image := verifNondetBytes("image", 1)
 
